@@ -12,6 +12,7 @@ use crate::{
 };
 
 use super::{
+    cfg_file::ConfigFile,
     error::{Error, Result},
     locale::{InterpolOrLit, LocalesOrNamespaces},
     parsed_value::{ParsedValue, ParsedValueSeed},
@@ -413,11 +414,11 @@ impl Ranges {
         &self,
         values: &LocalesOrNamespaces,
         top_locale: &Key,
-        default_locale: &Key,
+        cfg_file: &ConfigFile,
         path: &KeyPath,
     ) -> Result<()> {
         self.try_for_each_value(move |value| {
-            value.resolve_foreign_key(values, top_locale, default_locale, path)
+            value.resolve_foreign_key(values, top_locale, cfg_file, path)
         })
     }
 
